@@ -4,14 +4,20 @@ encoded by the Coq spec (Spec/C14Notes.v encode_notes), placed by this harness i
 synthesized ELF file (ELF header, one PT_NOTE program header, sections: null, .note (SHT_NOTE),
 .stab, .shstrtab) and read back through the REAL NoteSection.iter_notes and NoteSegment.iter_notes
 of ELFFile(BytesIO).  model = extracted Model/C14Notes.v over the same image (it decodes the
-section / program header itself), spec = expected_notes.  Same for StabSection.iter_stabs."""
+section / program header itself), spec = expected_notes.  Same for StabSection.iter_stabs.
+The program header and the .note / .stab section headers are the bytes of the Coq encoders
+encode_phdr / encode_shdr; every field of them that does not locate the extent (sh_flags, sh_addr,
+sh_link, sh_info, sh_addralign, sh_entsize; p_flags, p_vaddr, p_paddr, p_memsz, p_align) is drawn
+by the generator: the theorems C14_stabs_file_exact / C14_notes_file_exact quantify over them."""
 import io, struct
 from tools.lib.framework import impl_call
 from tools.lib.sx import canon as sx_canon
 
 CLAIMED = True
 CONFIG = {'assumptions': ['names are compared as latin-1 bytes (bytes2str); build ids as the ASCII hex text',
-                          'the ELF container around the extent is assembled by the harness (C01 covers its decoding)',
+                          'the ELF container around the extent is assembled by the harness (C01 covers its decoding); the program '
+                          'header and the .note/.stab section headers are bytes of the Coq encoders',
+                          'sh_flags never carries SHF_COMPRESSED (Section.__init__ would read a compression header: C-other)',
                           'in a core file the kind of a descriptor is taken from n_type alone (the code ignores the owner)'],
           'trusted_extra': ['harness ELF assembler tools/harness/c14.py mk_elf (container only; the note/stab bytes '
                             'come from the Coq encoders)']}
@@ -21,7 +27,8 @@ LEVEL = {'text': 'Machine-checked theorems for unbounded inputs: iterating any w
                  'encoded notes with offsets and padded sizes and consumes the whole extent; section view = segment '
                  'view; the six known descriptor kinds (GNU ABI tag, build id, gold version, GNU property list with '
                  'class-dependent padding, NT_PRPSINFO, NT_FILE) decode to their encoded fields; stab tables enumerate '
-                 'exactly; roundup (body regenerated from the live function) is the least multiple of 2^b above n. '
+                 'exactly their 12-byte records whatever sh_entsize says (the section / program header fields other '
+                 'than offset and size are universally quantified in the file-level theorems); roundup (body regenerated from the live function) is the least multiple of 2^b above n. '
                  'The hand model is pinned to the code by the differential correspondence through real '
                  'NoteSection/NoteSegment/StabSection objects.',
          'design_ref': '4.14', 'technique': 'Coq proof (generic layout round trip, induction over the note list) + '
@@ -35,7 +42,11 @@ RULE = ('cases: abstract note extents drawn from the seeded PRNG (0..8 notes; na
         'header-only final notes; unknown owners and types; both classes and byte orders; e_type CORE vs REL/EXEC/DYN/'
         'NONE/raw; machines with 16-bit and 32-bit uid; known descriptors: ABI tag, build id, gold version, property '
         'lists of 0..6 properties of every kind with garbage padding, NT_PRPSINFO, NT_FILE), every free padding byte '
-        'non-zero garbage; extent placed mid-file or at EOF at a random (unaligned) offset; stab tables of 0..20 records; '
+        'non-zero garbage; extent placed mid-file or at EOF at a random (unaligned) offset; every header field that does '
+        'not locate the extent is drawn (typical / 0 / 1 / maximum / random of the field width): sh_flags (without '
+        'SHF_COMPRESSED), sh_addr, sh_link, sh_info, sh_addralign, sh_entsize, p_flags, p_vaddr, p_paddr, p_memsz, '
+        'p_align; stab tables of 0..20 records, and every count 0..5 under sh_entsize 0, 12, 20, 1, 6, 24, 13, the '
+        'table size, one more, the maximum; '
         'roundup on boundary values; a malformed stream (truncated extents, unterminated names, random bytes) outside '
         'the domain. distinct = hash(kind, abstract); non-trivial = >=2 notes, or a size with residue != 0 mod 4, or an '
         'empty field, or a known descriptor kind, or >=2 stabs')
@@ -49,45 +60,77 @@ FINAL_NOTE_KEY = 'final-header-only-note-dropped'
 
 
 # ----------------------------------------------------------------------------- ELF container
-def mk_elf(le, is64, e_type, e_machine, notes, stab, pre_pad, eof):
-    """returns (image, phoff, shoff_note, shoff_stab, note_off, stab_off)"""
-    E = '<' if le else '>'
+SHF_COMPRESSED = 0x800
+DEFAULT_SHF = [0, 0, 0, 0, 1, 0]        # sh_flags sh_addr sh_link sh_info sh_addralign sh_entsize
+DEFAULT_PHF = [4, 0, 0, 'filesz', 4]    # p_flags p_vaddr p_paddr p_memsz p_align
+
+
+def _hdrs(layout):
+    """layout = [pre_pad, eof] (replays older than the header sweep) or [pre_pad, eof, shf, phf]"""
+    if len(layout) >= 4:
+        return layout[0], layout[1], list(layout[2]), list(layout[3])
+    return layout[0], layout[1], DEFAULT_SHF, DEFAULT_PHF
+
+
+def plan(is64, nlen, slen, pre_pad, eof):
+    """where everything goes: dict(phoff, shoff, note_off, stab_off, str_off, total)"""
     ehsize, phentsize, shentsize = (64, 56, 64) if is64 else (52, 32, 40)
-    shstr = b'\0.note\0.stab\0.shstrtab\0'
-    phoff = ehsize
     off = ehsize + phentsize
+    d = dict(phoff=ehsize, shentsize=shentsize)
     if eof:
         # headers and the other sections first, the note extent last (ends at EOF)
-        str_off = off; off += len(shstr)
-        shoff = off; off += 4 * shentsize
-        stab_off = off; off += len(stab)
+        d['str_off'] = off; off += len(SHSTR)
+        d['shoff'] = off; off += 4 * shentsize
+        d['stab_off'] = off; off += slen
         off += pre_pad
-        note_off = off; off += len(notes)
+        d['note_off'] = off; off += nlen
     else:
         off += pre_pad
-        note_off = off; off += len(notes)
-        stab_off = off; off += len(stab)
-        str_off = off; off += len(shstr)
-        shoff = off; off += 4 * shentsize
+        d['note_off'] = off; off += nlen
+        d['stab_off'] = off; off += slen
+        d['str_off'] = off; off += len(SHSTR)
+        d['shoff'] = off; off += 4 * shentsize
+    d['total'] = off
+    return d
+
+
+SHSTR = b'\0.note\0.stab\0.shstrtab\0'
+
+
+def shdr_fields(name, typ, off, size, shf):
+    """the ten fields in gABI order, for the Coq encoder (Spec/C14Notes.v encode_shdr)"""
+    flags, addr, link, info, addralign, entsize = shf
+    return [name, typ, flags, addr, off, size, link, info, addralign, entsize]
+
+
+def phdr_fields(off, size, phf):
+    flags, vaddr, paddr, memsz, align = phf
+    return [4, flags, off, vaddr, paddr, size, size if memsz == 'filesz' else memsz, align]
+
+
+def mk_elf(le, is64, e_type, e_machine, notes, stab, pre_pad, eof, pl, ph, sh_note, sh_stab):
+    """ELF header, null and .shstrtab section headers are packed here; the program header and the
+    .note / .stab section headers are the bytes of the Coq encoders (every field drawn by the generator)"""
+    E = '<' if le else '>'
+    ehsize, phentsize, shentsize = (64, 56, 64) if is64 else (52, 32, 40)
     ident = b'\x7fELF' + bytes([2 if is64 else 1, 1 if le else 2, 1, 0, 0]) + b'\0' * 7
     if is64:
-        eh = ident + struct.pack(E + 'HHIQQQIHHHHHH', e_type, e_machine, 1, 0, phoff, shoff, 0, ehsize, phentsize, 1, shentsize, 4, 3)
-        ph = struct.pack(E + 'IIQQQQQQ', 4, 4, note_off, 0, 0, len(notes), len(notes), 4)
+        eh = ident + struct.pack(E + 'HHIQQQIHHHHHH', e_type, e_machine, 1, 0, pl['phoff'], pl['shoff'], 0, ehsize, phentsize, 1, shentsize, 4, 3)
         def sh(name, typ, o, sz):
             return struct.pack(E + 'IIQQQQIIQQ', name, typ, 0, 0, o, sz, 0, 0, 1, 0)
     else:
-        eh = ident + struct.pack(E + 'HHIIIIIHHHHHH', e_type, e_machine, 1, 0, phoff, shoff, 0, ehsize, phentsize, 1, shentsize, 4, 3)
-        ph = struct.pack(E + 'IIIIIIII', 4, note_off, 0, 0, len(notes), len(notes), 4, 4)
+        eh = ident + struct.pack(E + 'HHIIIIIHHHHHH', e_type, e_machine, 1, 0, pl['phoff'], pl['shoff'], 0, ehsize, phentsize, 1, shentsize, 4, 3)
         def sh(name, typ, o, sz):
             return struct.pack(E + 'IIIIIIIIII', name, typ, 0, 0, o, sz, 0, 0, 1, 0)
-    shs = sh(0, 0, 0, 0) + sh(1, 7, note_off, len(notes)) + sh(7, 1, stab_off, len(stab)) + sh(13, 3, str_off, len(shstr))
+    assert len(ph) == phentsize and len(sh_note) == shentsize and len(sh_stab) == shentsize
+    shs = sh(0, 0, 0, 0) + sh_note + sh_stab + sh(13, 3, pl['str_off'], len(SHSTR))
     filler = bytes((0xa5 + i) & 0xff or 1 for i in range(pre_pad))
     if eof:
-        img = eh + ph + shstr + shs + stab + filler + notes
+        img = eh + ph + SHSTR + shs + stab + filler + notes
     else:
-        img = eh + ph + filler + notes + stab + shstr + shs
-    assert len(img) == off
-    return img, phoff, shoff + shentsize, shoff + 2 * shentsize, note_off, stab_off
+        img = eh + ph + filler + notes + stab + SHSTR + shs
+    assert len(img) == pl['total']
+    return img
 
 
 # ----------------------------------------------------------------------------- generators
@@ -244,8 +287,35 @@ def gen(ctx):
         em = rng.choice(list(EM))
         return [le, is64, et, em]
 
-    def layout_pick():
-        return [rng.choice([0, 0, 1, 2, 3, 4, 5, 7]), rng.random() < 0.3]
+    def word(bits, *typical):
+        """a header field of the given width: typical values, 0, 1, the maximum, a random one"""
+        r = rng.random()
+        if r < 0.45 and typical:
+            return rng.choice(typical)
+        if r < 0.6:
+            return rng.choice([0, 1, 2 ** bits - 1, 2 ** (bits - 1)])
+        if r < 0.8:
+            return rng.getrandbits(rng.choice([4, 8, 16]))
+        return rng.getrandbits(bits)
+
+    def shf_pick(is64, entsizes):
+        """the section header fields that do not locate the bytes, all drawn: sh_flags (any but
+        SHF_COMPRESSED), sh_addr, sh_link, sh_info, sh_addralign, sh_entsize"""
+        n = 64 if is64 else 32
+        return [word(n, 0, 2, 3, 0x32) & ~SHF_COMPRESSED, word(n, 0, 0x400000), word(32, 0, 1, 2, 3, 4, 0xffff),
+                word(32, 0, 1, 2, 3, 4), word(n, 0, 1, 4, 8, 16, 3), word(n, *entsizes)]
+
+    def phf_pick(is64):
+        """p_flags, p_vaddr, p_paddr, p_memsz ('filesz' = equal to p_filesz), p_align"""
+        n = 64 if is64 else 32
+        return [word(32, 4, 6, 7), word(n, 0, 0x400000), word(n, 0, 0x400000),
+                'filesz' if rng.random() < 0.5 else word(n, 0, 12, 0x1000), word(n, 0, 1, 4, 8, 16, 0x1000, 3)]
+
+    NOTE_ENTSIZES = (0, 0, 4, 12, 1)
+    STAB_ENTSIZES = (0, 12, 20, 1, 24, 8, 13, 36)      # GNU as: 12 (ELF32), 20 (x86-64); others leave 0
+
+    def layout_pick(is64, entsizes=NOTE_ENTSIZES):
+        return [rng.choice([0, 0, 1, 2, 3, 4, 5, 7]), rng.random() < 0.3, shf_pick(is64, entsizes), phf_pick(is64)]
 
     def cfgd(c):
         return (c[0], c[1], c[2], c[3])
@@ -258,6 +328,14 @@ def gen(ctx):
             cases.append(('notes', [c, [['none', b'', 9, ['raw', b''], b'']], [0, False]]))
             cases.append(('notes', [c, [['none', b'', 9, ['raw', b''], b'']], [3, True]]))
             cases.append(('notes', [c, [[b'AB', b'\x55', 7, ['raw', b'xyz'], b'\x66'], ['none', b'', 0, ['raw', b''], b'']], [0, False]]))
+            # the same extent under headers that claim 8-byte / 1-byte / absurd alignment and entry sizes
+            top = 2 ** (64 if is64 else 32) - 1
+            for shf, phf in (([2, 0x400000, 0, 0, 8, 0], [4, 0x400000, 0x400000, 'filesz', 8]),
+                             ([0, 0, 3, 2, 1, 12], [7, 0, 0, 0, 1]),
+                             ([top & ~SHF_COMPRESSED, top, 2 ** 32 - 1, 2 ** 32 - 1, top, top], [2 ** 32 - 1, top, top, top, top]),
+                             ([0, 0, 0, 0, 0, 1], [0, 0, 0, 1, 0])):
+                cases.append(('notes', [c, [[b'AB', b'\x55', 7, ['raw', b'xyz'], b'\x66'], [b'GNU', b'', 0x100, ['raw', b'12345'], b'\x77\x78\x79']],
+                                        [2, False, shf, phf]]))
     # --- residue sweep: every (namesz, descsz) in 0..8 x 0..8, as the only note, the first of two, the last of two
     for ns in range(0, 9):
         for ds in range(0, 9):
@@ -269,9 +347,9 @@ def gen(ctx):
             ty = rng.choice([0, 2, 6, 7, 0x1000, 2 ** 32 - 1])
             n1 = [name, _garbage(rng, _pad(4, ns)), ty, ['raw', _bytes(rng, ds)], _garbage(rng, _pad(4, ds))]
             other = _gen_note(rng, cfgd(c))
-            cases.append(('notes', [c, [n1], layout_pick()]))
-            cases.append(('notes', [c, [n1, other], layout_pick()]))
-            cases.append(('notes', [c, [other, n1], layout_pick()]))
+            cases.append(('notes', [c, [n1], layout_pick(c[1])]))
+            cases.append(('notes', [c, [n1, other], layout_pick(c[1])]))
+            cases.append(('notes', [c, [other, n1], layout_pick(c[1])]))
     # --- random extents
     for _ in range(500 * T):
         c = cfg_pick()
@@ -279,7 +357,7 @@ def gen(ctx):
         notes = [_gen_note(rng, cfgd(c)) for _ in range(k)]
         if notes and rng.random() < 0.25:
             notes.append(['none', b'', rng.choice([0, 6, 7, 2 ** 32 - 1]), ['raw', b''], b''])   # header-only final note
-        cases.append(('notes', [c, notes, layout_pick()]))
+        cases.append(('notes', [c, notes, layout_pick(c[1])]))
     # --- every known descriptor kind, all four class/order combinations
     for le, is64 in _cfgs():
         for _ in range(12 * T):
@@ -287,12 +365,12 @@ def gen(ctx):
                 c = [le, is64, rng.choice(['ET_DYN', 'ET_EXEC', 'ET_REL', 'raw']), rng.choice(list(EM))]
                 n = _gen_note(rng, cfgd(c), name=b'GNU', force_type=ty)
                 extra = [_gen_note(rng, cfgd(c)) for _ in range(rng.choice([0, 1, 2]))]
-                cases.append(('notes', [c, [n] + extra if rng.random() < 0.5 else extra + [n], layout_pick()]))
+                cases.append(('notes', [c, [n] + extra if rng.random() < 0.5 else extra + [n], layout_pick(c[1])]))
             for ty in (3, NT_FILE):
                 c = [le, is64, 'ET_CORE', rng.choice(list(EM))]
                 n = _gen_note(rng, cfgd(c), name=rng.choice([b'CORE', b'CORE', b'LINUX', 'none']), force_type=ty)
                 extra = [_gen_note(rng, cfgd(c)) for _ in range(rng.choice([0, 1, 2]))]
-                cases.append(('notes', [c, [n] + extra if rng.random() < 0.5 else extra + [n], layout_pick()]))
+                cases.append(('notes', [c, [n] + extra if rng.random() < 0.5 else extra + [n], layout_pick(c[1])]))
     # --- large names / descriptors
     for _ in range(6 * T):
         c = cfg_pick()
@@ -301,15 +379,24 @@ def gen(ctx):
         big[4] = _garbage(rng, _pad(4, len(big[3][1])))
         if c[2] == 'ET_CORE':
             big[2] = 0x78
-        cases.append(('notes', [c, [big, _gen_note(rng, cfgd(c))], layout_pick()]))
-    # --- stabs
+        cases.append(('notes', [c, [big, _gen_note(rng, cfgd(c))], layout_pick(c[1])]))
+    # --- stabs: the header's sh_entsize (and sh_link, sh_info, sh_addralign, sh_flags, sh_addr) are free
+    def stab_pick():
+        return [rng.choice([0, 1, 2 ** 32 - 1, rng.getrandbits(32)]), rng.getrandbits(8), rng.getrandbits(8),
+                rng.choice([0, 0xffff, rng.getrandbits(16)]), rng.choice([0, 2 ** 32 - 1, rng.getrandbits(32)])]
     for le, is64 in _cfgs():
+        top = 2 ** (64 if is64 else 32) - 1
+        # every record count 0..5 under every notable entry size (0, the record size, GNU as's 20 for
+        # x86-64, 1, a divisor, a non-divisor, the table size, one more, the maximum)
+        for k in range(0, 6):
+            for ent in (0, 12, 20, 1, 6, 24, 13, 12 * k, 12 * k + 1, top):
+                c = [le, is64, rng.choice(['ET_REL', 'ET_EXEC', 'ET_DYN']), rng.choice(list(EM))]
+                shf = shf_pick(is64, STAB_ENTSIZES)
+                shf[5] = ent
+                cases.append(('stabs', [c, [stab_pick() for _ in range(k)], [rng.choice([0, 1, 3]), rng.random() < 0.3, shf, DEFAULT_PHF]]))
         for k in [0, 1, 2, 3, 20] + [rng.randint(0, 12) for _ in range(6 * T)]:
-            stabs = []
-            for _ in range(k):
-                stabs.append([rng.choice([0, 1, 2 ** 32 - 1, rng.getrandbits(32)]), rng.getrandbits(8), rng.getrandbits(8),
-                              rng.choice([0, 0xffff, rng.getrandbits(16)]), rng.choice([0, 2 ** 32 - 1, rng.getrandbits(32)])])
-            cases.append(('stabs', [[le, is64, 'ET_REL', 'EM_386'], stabs, layout_pick()]))
+            c = [le, is64, rng.choice(['ET_REL', 'ET_EXEC', 'ET_DYN', 'ET_CORE', 'raw']), rng.choice(list(EM))]
+            cases.append(('stabs', [c, [stab_pick() for _ in range(k)], layout_pick(is64, STAB_ENTSIZES)]))
     # --- roundup
     for b in (0, 1, 2, 3, 4, 12):
         for n in [0, 1, 2, 3, 4, 5, 7, 8, 9, 15, 16, 17, 4095, 4096, 4097, 2 ** 32 - 1, 2 ** 32, 2 ** 64 - 3] + \
@@ -320,7 +407,7 @@ def gen(ctx):
         c = cfg_pick()
         notes = [_gen_note(rng, cfgd(c)) for _ in range(rng.choice([1, 2, 3]))]
         how = rng.choice(['cut', 'nonul', 'random', 'bigdesc', 'bigname'])
-        cases.append(('malformed', [c, notes, layout_pick(), how, rng.getrandbits(30)]))
+        cases.append(('malformed', [c, notes, layout_pick(c[1]), how, rng.getrandbits(30)]))
     return cases
 
 
@@ -402,6 +489,10 @@ def _impl_stabs(img):
     return _collect(sec.iter_stabs(), _stab)
 
 
+def _bucket(v):
+    return v if v in (0, 1, 2, 3, 4, 8, 12, 16) else 'small' if v < 0x10000 else 'large'
+
+
 def _nontrivial(notes):
     if len(notes) >= 2:
         return True
@@ -455,30 +546,58 @@ def evaluate(ctx, cases):
             reqs.append(['pad_to', 2 ** a[1], a[0]])
             reqs.append(['roundup', a[0], a[1]])
     ans = drv.batch(reqs)
-    # ---- pass 2: assemble images, ask the model and the expected observations
-    work = []
+    # ---- pass 2: place everything, encode the three headers that describe the extents through the Coq spec
+    plans = []
     reqs = []
     for i, (kind, a) in enumerate(cases):
-        enc, wf = ans[2 * i], ans[2 * i + 1]
+        enc = ans[2 * i]
+        if kind == 'roundup':
+            plans.append(None)
+            continue
+        c = a[0]
+        pre_pad, eof, shf, phf = _hdrs(a[2])
         if kind == 'notes':
-            c, notes, (pre_pad, eof) = a
-            img, phoff, sh_note, sh_stab, note_off, stab_off = mk_elf(c[0], c[1], ET[c[2]], EM[c[3]], enc, b'\x11' * 12, pre_pad, eof)
-            work.append(dict(img=img, wf=bool(wf), n=3))
-            reqs += [['section_notes', dcfg(c), img, sh_note], ['segment_notes', dcfg(c), img, phoff],
-                     ['expected', dcfg(c), note_off, notes]]
+            nbytes, sbytes = enc, b'\x11' * 12
         elif kind == 'malformed':
-            c, notes, (pre_pad, eof), how, seed = a
-            ext, size = _mangle(seed, how, enc, c[0])
-            img, phoff, sh_note, sh_stab, note_off, stab_off = mk_elf(c[0], c[1], ET[c[2]], EM[c[3]], ext[:size], b'\x11' * 12, pre_pad, eof)
+            ext, size = _mangle(a[4], a[3], enc, c[0])
+            nbytes, sbytes = ext[:size], b'\x11' * 12
+        else:
+            nbytes, sbytes = b'', enc
+        pl = plan(c[1], len(nbytes), len(sbytes), pre_pad, eof)
+        stab_hdr = kind == 'stabs'
+        h_note = shdr_fields(1, 7, pl['note_off'], len(nbytes), DEFAULT_SHF if stab_hdr else shf)
+        h_stab = shdr_fields(7, 1, pl['stab_off'], len(sbytes), shf if stab_hdr else DEFAULT_SHF)
+        h_seg = phdr_fields(pl['note_off'], len(nbytes), phf)
+        plans.append((pl, nbytes, sbytes, pre_pad, eof, shf, phf))
+        reqs += [['enc_phdr', c[0], c[1], h_seg], ['enc_shdr', c[0], c[1], h_note], ['enc_shdr', c[0], c[1], h_stab],
+                 ['wf_phdr', c[0], c[1], h_seg], ['wf_shdr', c[0], c[1], h_note], ['wf_shdr', c[0], c[1], h_stab]]
+    hans = drv.batch(reqs)
+    # ---- pass 3: assemble images, ask the model and the expected observations
+    work = []
+    reqs = []
+    hpos = 0
+    for i, (kind, a) in enumerate(cases):
+        enc, wf = ans[2 * i], ans[2 * i + 1]
+        if kind == 'roundup':
+            work.append(dict(n=0, pad=enc, model=wf))
+            continue
+        c = a[0]
+        pl, nbytes, sbytes, pre_pad, eof, shf, phf = plans[i]
+        ph_b, shn_b, shs_b, wf_p, wf_n, wf_s = hans[hpos:hpos + 6]
+        hpos += 6
+        img = mk_elf(c[0], c[1], ET[c[2]], EM[c[3]], nbytes, sbytes, pre_pad, eof, pl, ph_b, shn_b, shs_b)
+        phoff, sh_note, sh_stab = pl['phoff'], pl['shoff'] + pl['shentsize'], pl['shoff'] + 2 * pl['shentsize']
+        wf_h = bool(wf_p) and bool(wf_n) and bool(wf_s)
+        if kind == 'notes':
+            work.append(dict(img=img, wf=bool(wf) and wf_h, n=3, shf=shf, phf=phf))
+            reqs += [['section_notes', dcfg(c), img, sh_note], ['segment_notes', dcfg(c), img, phoff],
+                     ['expected', dcfg(c), pl['note_off'], a[1]]]
+        elif kind == 'malformed':
             work.append(dict(img=img, n=2))
             reqs += [['section_notes', dcfg(c), img, sh_note], ['segment_notes', dcfg(c), img, phoff]]
-        elif kind == 'stabs':
-            c, stabs, (pre_pad, eof) = a
-            img, phoff, sh_note, sh_stab, note_off, stab_off = mk_elf(c[0], c[1], ET[c[2]], EM[c[3]], b'', enc, pre_pad, eof)
-            work.append(dict(img=img, wf=bool(wf), n=2))
-            reqs += [['section_stabs', dcfg(c), img, sh_stab], ['expected_stabs', c[0], stab_off, stabs]]
         else:
-            work.append(dict(n=0, pad=enc, model=wf))
+            work.append(dict(img=img, wf=bool(wf) and wf_h, n=2, shf=shf))
+            reqs += [['section_stabs', dcfg(c), img, sh_stab], ['expected_stabs', c[0], pl['stab_off'], a[1]]]
     ans2 = drv.batch(reqs)
     pos = 0
     for (kind, a), w in zip(cases, work):
@@ -486,7 +605,8 @@ def evaluate(ctx, cases):
         pos += w['n']
         ctx.bump('kind', kind)
         if kind == 'notes':
-            c, notes, (pre_pad, eof) = a
+            c, notes = a[0], a[1]
+            eof = a[2][1]
             got = impl_call(_impl_notes, w['img'])
             # (the header names ELFFile reports are expected to be the generator's; if an enum edit in /repo makes
             #  them differ, impl is compared with the spec for the generator's configuration and fails there)
@@ -498,6 +618,12 @@ def evaluate(ctx, cases):
             ctx.bump('notes_per_extent', len(notes) if len(notes) < 6 else '6+')
             ctx.bump('cfg', '%s%d%s' % ('LE' if c[0] else 'BE', 64 if c[1] else 32, '-core' if c[2] == 'ET_CORE' else ''))
             ctx.bump('placement', 'eof' if eof else 'mid')
+            ctx.bump('note_sh_addralign', _bucket(w['shf'][4]))
+            ctx.bump('note_p_align', _bucket(w['phf'][4]))
+            ctx.bump('note_sh_entsize', _bucket(w['shf'][5]))
+            ctx.bump('note_sh_link', _bucket(w['shf'][2]))
+            ctx.bump('note_sh_info', _bucket(w['shf'][3]))
+            ctx.bump('note_p_memsz', 'filesz' if w['phf'][3] == 'filesz' else _bucket(w['phf'][3]))
             for name, npad, ty, desc, dpad in notes:
                 ctx.bump('namesz_mod4', (0 if name == 'none' else len(name) + 1) % 4)
                 ctx.bump('desc_kind', desc[0])
@@ -524,6 +650,12 @@ def evaluate(ctx, cases):
             impl = impl_call(_impl_stabs, w['img'])
             model = r[0][1] if isinstance(r[0], list) and r[0] and r[0][0] == 'ok' else r[0]
             ctx.bump('stabs_per_table', len(a[1]) if len(a[1]) < 6 else '6+')
+            ent = w['shf'][5]
+            ctx.bump('stab_sh_entsize', ent if ent in (0, 1, 12, 20) else 'divides' if ent and (12 * len(a[1])) % ent == 0
+                     else 'above-size' if ent > 12 * len(a[1]) else 'other')
+            ctx.bump('stab_sh_link', _bucket(w['shf'][2]))
+            ctx.bump('stab_sh_info', _bucket(w['shf'][3]))
+            ctx.bump('stab_sh_addralign', _bucket(w['shf'][4]))
             ctx.record(kind, a, impl=impl, spec=r[1], model=model, in_domain=w['wf'], nontrivial=len(a[1]) >= 2, key='stabs')
         else:
             n, b = a
